@@ -39,8 +39,12 @@ func c16Resolve(c *Ctx, px string) *c16Fns {
 	out := &c16Fns{}
 	hl := `call<strings.LastIndex>(p0, "1")`
 	lower := "call<strings.ToLower>(p0)"
-	data := "ext#0(call<*>(load(global<repo/pkg/bech32.charset>), slice(" + lower + ", bin<+>(" + hl + ", 1), none)))"
-	vpat := "call<*>(slice(" + lower + ", 0, " + hl + "), " + data + ")"
+	// the two parts of the lower-cased string, or each part lower-cased on its own (the string is ASCII there:
+	// C04.ascii-before-fold.*, so folding preserves positions)
+	hrpLow := "alt(slice(" + lower + ", 0, " + hl + "), call<strings.ToLower>(slice(p0, 0, " + hl + ")))"
+	charsLow := "alt(slice(" + lower + ", bin<+>(" + hl + ", 1), none), call<strings.ToLower>(slice(p0, bin<+>(" + hl + ", 1), none)))"
+	data := "ext#0(call<*>(load(global<repo/pkg/bech32.charset>), " + charsLow + "))"
+	vpat := "call<*>(" + hrpLow + ", " + data + ")"
 	for _, ce := range deepEdges(c, b) {
 		if !ce.Taken || out.verify != nil {
 			continue
@@ -51,7 +55,7 @@ func c16Resolve(c *Ctx, px string) *c16Fns {
 			for _, e := range ana.Exits(dec) {
 				if !e.Panic && b.Of(e.Results[2], e.Instr).Is("nil") {
 					// the gate must be this routine (the one decided below), not any call with the same arguments
-					spec := "call<" + out.verify.String() + ">(slice(" + lower + ", 0, " + hl + "), " + data + ")"
+					spec := "call<" + out.verify.String() + ">(" + hrpLow + ", " + data + ")"
 					r.Check(c.passes(b, e.Instr.Block(), spec), px+".verify-gate.decode", c.ipos(e.Instr), "every success return of Decode passes verify(lower hrp, all decoded symbols incl. the last six) == true")
 				}
 			}
@@ -59,7 +63,7 @@ func c16Resolve(c *Ctx, px string) *c16Fns {
 	}
 	if out.verify == nil {
 		// the verification written out at the gate: polymod(expand(hrp) ‖ data) == 1
-		ipat := "bin<==>(call<*>(concat(call<*>(slice(" + lower + ", 0, " + hl + ")), " + data + ")), 1)"
+		ipat := "bin<==>(call<*>(concat(call<*>(" + hrpLow + "), " + data + ")), 1)"
 		for _, ce := range deepEdges(c, b) {
 			if _, ok := ana.Match(ipat, ce.Lit); !ok || out.polymod != nil {
 				continue
